@@ -78,9 +78,11 @@ Check (C04_process_synced : forall (S : Z -> Z) (F : option Z) have irs c s cx i
   tcp_process cx s ip r = Ok (s', rep, tags) ->
   reply_ok s' rep /\
   (rx_synced S F (have_seg have c s r) irs c s' \/
-   (rx_unsynced s' /\ s_state s' = Listen /\ rep = None /\ c = 0)) /\
+   (rx_unsynced s' /\ s_state s' = Listen /\ rep = None /\ c = 0 /\
+    rb_len (s_rx_buffer s) = 0 /\ s_rx_fin_received s = false)) /\
   beyond_untouched s' s /\
-  (s_rx_fin_received s' = true -> s_rx_fin_received s = true \/ r_control r = CFin)).
+  (s_rx_fin_received s' = true -> s_rx_fin_received s = true \/ r_control r = CFin) /\
+  wsq c s <= wsq c s').
 
 Check (C04_example_reachable :
   exists g, rx_reach ex_S ex_F ex_s5 g /\ g_irs g = Some 1000 /\ g_consumed g = 0 /\ g_epoch g = 1%nat).
